@@ -545,17 +545,19 @@ impl NameResolution {
             ..
         } = func;
         let mut env = ResolveLocalEnv::new();
+        // Each parameter slot keeps the id minted for it: looking the name up again would
+        // give every slot of a repeated name the id of its last occurrence.
+        let mut param_ids = Vec::with_capacity(params.len());
         for param in params {
-            env.add(&param.0, self.fresh_name(&param.0.0, hir_table));
+            let local_id = self.fresh_name(&param.0.0, hir_table);
+            env.add(&param.0, local_id);
+            param_ids.push(local_id);
         }
         let tparams = type_param_set(generics);
         let new_params = params
             .iter()
-            .map(|param| {
-                let local_id = env.rfind(&param.0).unwrap_or_else(|| {
-                    self.ice(format!("missing local id for param {}", param.0.0));
-                    self.fresh_name(&param.0.0, hir_table)
-                });
+            .zip(param_ids)
+            .map(|(param, local_id)| {
                 (
                     local_id,
                     self.lower_type_expr(&param.1, &tparams, ctx.current_package, ctx.imports),
